@@ -19,11 +19,15 @@ NScal == 14
 Top5  == <<"address", "port", "threads", "timeout", "websocket">>
 BaseVal == <<Q("127.0.0.1"), "8080", "8", "5", Q("localhost:1234"), Q("@"), Q("forbidden"), Q("debug"),
              "false", Q("humphrey.log"), "128M", "60">>
-Sizes == { n \o u : n \in {"0", "1", "1023", "128"}, u \in {"", "K", "M", "G"} } \cup {"8589934591G"}
+\* (L1) boundary values: 0, 1, limits, powers of two +-1 around 2^8, 2^16, 2^24, 2^31, 2^32, 2^53, 2^63
+Sizes == { n \o u : n \in {"0", "1", "1023", "128"}, u \in {"", "K", "M", "G"} }
+         \cup {"8589934591G", "8796093022207M", "9007199254740991K", "255", "256", "65535", "65536", "16777217", "2147483647",
+               "2147483648", "4294967295", "4294967296", "9007199254740993", "9223372036854775807", "4194304K", "4095M"}
+BigNats == {"255", "256", "65536", "2147483648", "4294967297", "9007199254740993", "9223372036854775807"}
 \* strings with runs of blanks, a blank next to a quotation mark and a tab between the quotation marks: byte-exact
-AltVals == << {Q("0.0.0.0"), Q("::1"), Q("my host {x}"), Q(" my   host ")}, {"0", "1", "80", "443", "65535"}, {"1", "32", "1000"},
-              {"0", "1", "3600"}, {Q("ws.example.com:80"), Q("ws  host:80")}, {}, {Q("block")}, {Q("error"), Q("warn"), Q("info")},
-              {"true"}, {Q("/var/log/h u.log"), Q("/var/log/h  u.log"), Q(" \tlogs\t \tx.log ")}, Sizes, {"0", "1", "86400"} >>
+AltVals == << {Q("0.0.0.0"), Q("::1"), Q("my host {x}"), Q(" my   host ")}, {"0", "1", "80", "255", "256", "443", "65534", "65535", "63K"}, {"1", "2", "32", "1000"} \cup BigNats,
+              {"0", "1", "3600"} \cup BigNats, {Q("ws.example.com:80"), Q("ws  host:80")}, {}, {Q("block")}, {Q("error"), Q("warn"), Q("info")},
+              {"true"}, {Q("/var/log/h u.log"), Q("/var/log/h  u.log"), Q(" \tlogs\t \tx.log ")}, Sizes, {"0", "1", "86400"} \cup BigNats >>
 
 ScalarRoot(P, val) ==
   LET T[i \in 0..5] == IF i = 0 THEN <<>> ELSE T[i - 1] \o (IF i \in P THEN <<K(Top5[i], val[i])>> ELSE <<>>)
@@ -81,8 +85,15 @@ Base12 == [i \in 1..12 |-> BaseVal[i]]
 Dflt   == <<<<2, 1>>>>          \* one plain directory route
 
 FamPresence(lo, hi) == { Plain(Ast(RootOf(1, ScalarRoot(P, Base12), Dflt, <<>>), <<>>, BlFor(P))) : P \in PSets(lo, hi) }
+\* the quick tier takes a sample of the boundary values, the thorough tier all of them
+QuickVals == << AltVals[1], {"0", "1", "255", "256", "65535", "63K"}, {"1", "4294967297"}, {"0", "1", "4294967297", "9223372036854775807"},
+                AltVals[5], {}, AltVals[7], AltVals[8], AltVals[9], AltVals[10],
+                { n \o u : n \in {"0", "1023", "128"}, u \in {"", "K", "M", "G"} }
+                  \cup {"8589934591G", "8796093022207M", "65536", "2147483648", "4294967295", "9007199254740993", "9223372036854775807"},
+                {"0", "1", "9007199254740993"} >>
+ValsOf(i) == IF Tier = "thorough" THEN AltVals[i] ELSE QuickVals[i]
 FamValues == UNION { { Plain(Ast(RootOf(2, ScalarRoot(AllScal, [Base12 EXCEPT ![i] = x]), <<>>, <<>>), <<>>, BlFor(AllScal))) :
-                         x \in AltVals[i] } : i \in 1..12 }
+                         x \in ValsOf(i) } : i \in 1..12 }
 FamDefault(A, n) == { Plain(Ast(RootOf(1, <<>>, d, <<>>), <<>>, NoBl)) : d \in SeqsUpTo(A, n) }
 FamDefault3(A)   == { Plain(Ast(RootOf(1, <<>>, d, <<>>), <<>>, NoBl)) : d \in SeqsOf(A, 3) }
 FamOneHost(A, n, B) == { Plain(Ast(RootOf(1, <<K("port", "81")>>, d, <<r>>), <<>>, NoBl)) : r \in SeqsUpTo(A, n), d \in SeqsUpTo(B, 1) }
@@ -113,6 +124,8 @@ FaultBase1 == SmallAst
 FaultBase2 == SplitFile(SplitRoot(SmallAst, 2, Len(SmallAst.srv.es)), 1, 2, 3)
 FaultBase3 == Ast(FullRoot(3), <<>>, BlFor(AllScal))
 FamFaults(a) == Faults(a)
+\* (L8) sections whose keys interact: `mode` without `file`, `file` without `mode`, `size` without `time`
+OnlyKeys(P) == Ast(RootOf(1, ScalarRoot(P, Base12), <<>>, <<>>), <<>>, BlFor(P))
 BraceFaults(a) == { x \in Faults(a) : x.fault.cls \in {"MissingOpenBrace", "MissingCloseBrace"} }
 
 ReplayRecs(x) == ndJsonDeserialize(IOEnv.TRACE)     \* (a parameter keeps TLC from evaluating it when there is no file)
@@ -126,11 +139,13 @@ Cases ==
          FamPresence(1, 13) \cup FamValues \cup FamDefault(Shapes13, 1) \cup FamDefault(Shapes4, 2)
          \cup FamOneHost(Shapes13, 1, Shapes4) \cup FamTwoHosts(Shapes4, {3}) \cup FamFull
          \cup FamIncludes(SmallAst) \cup FamFaults(FaultBase2) \cup BraceFaults(FaultBase1)
+         \cup { x \in FamFaults(OnlyKeys({7})) : x.fault.cls \in {"BadEnum", "OtherCase", "EmptyString", "MissingValue", "LoneQuote"} }
     [] Tier = "thorough" ->
          FamPresence(2, 12) \cup FamValues \cup FamDefault(Shapes13, 2) \cup FamDefault3(Shapes4 \cup {<<5, 3>>, <<9, 1>>})
          \cup FamOneHost(Shapes13, 2, Shapes4) \cup FamTwoHosts(Shapes4 \cup {<<8, 1>>}, {1, 2, 3}) \cup FamFull
          \cup FamIncludes(SmallAst) \cup FamIncludes(Ast(FullRoot(1), <<>>, BlFor(AllScal)))
          \cup FamFaults(FaultBase1) \cup FamFaults(FaultBase2) \cup FamFaults(FaultBase3)
+         \cup FamFaults(OnlyKeys({7})) \cup FamFaults(OnlyKeys({6})) \cup FamFaults(OnlyKeys({11})) \cup FamFaults(OnlyKeys({12}))
 
 (***************************************************************************)
 (* layouts read by the model of the code                                   *)
@@ -165,9 +180,11 @@ IsScalarEntry(e) == e.t = "key" \/ e.t = "sec"
 MoveToEnd(es, i)   == SubSeq(es, 1, i - 1) \o SubSeq(es, i + 1, Len(es)) \o <<es[i]>>
 MoveToFront(es, i) == <<es[i]>> \o SubSeq(es, 1, i - 1) \o SubSeq(es, i + 1, Len(es))
 Clean == ast.fault.cls = "" /\ Meaning(ast).ok
+\* the structural lemmas are not repeated for the value variations of one and the same structure
+Structural == Clean /\ ast \notin FamValues
 \* the position of a key or plain section among the entries of `server` (and of a key inside a section) is irrelevant
 LemPermute ==
-  Clean => LET m == Meaning(ast)  es == ast.srv.es IN
+  Structural => LET m == Meaning(ast)  es == ast.srv.es IN
            /\ \A i \in { i \in 1..Len(es) : IsScalarEntry(es[i]) } :
                  /\ Meaning([ast EXCEPT !.srv.es = MoveToEnd(es, i)]) = m
                  /\ Meaning([ast EXCEPT !.srv.es = MoveToFront(es, i)]) = m
@@ -176,13 +193,13 @@ LemPermute ==
                  \/ Meaning([ast EXCEPT !.srv.es[k].es = MoveToEnd(@, 1)]) = m
 \* moving any run of entries into an included file is irrelevant
 LemSplit ==
-  Clean => LET m == Meaning(ast)  es == ast.srv.es IN
+  Structural => LET m == Meaning(ast)  es == ast.srv.es IN
            /\ \A r \in Runs(Len(es)) : Meaning(SplitRoot(ast, r[1], r[2])) = m
            /\ \A k \in { k \in 1..Len(es) : IsSection(es[k]) } :
                  \A r \in Runs(Len(es[k].es)) : Meaning(SplitIn(ast, k, r[1], r[2])) = m
 \* an unknown key or an unknown section anywhere is ignored
 LemUnknown ==
-  Clean => LET m == Meaning(ast)  es == ast.srv.es
+  Structural => LET m == Meaning(ast)  es == ast.srv.es
                junk == <<K("colour", Q("red")), S("extras", <<K("port", "1"), K("file", Q("x"))>>)>> IN
            /\ Meaning([ast EXCEPT !.srv.es = junk \o @]) = m
            /\ Meaning([ast EXCEPT !.srv.es = @ \o junk]) = m
@@ -212,7 +229,7 @@ LemFaults ==
   /\ fault.cls \in RuleClasses   => m.kind \in {"validation", "ok"}     \* "ok": the key sits in an ignored section
   /\ fault.cls = "TooBig"        => m.kind = "reject"
   /\ fault.cls = ""              => m.kind \in {"ok"} /\ ~m.lenient
-  /\ fault.cls \in {"TripleQuote", "QuoteInPattern"} => m.kind # "ok" \/ m.lenient
+  /\ fault.cls \in {"TripleQuote", "QuoteInPattern", "OtherCase", "EmptyPattern"} => m.kind # "ok" \/ m.lenient
 LemmaInv == LemPermute /\ LemSplit /\ LemUnknown /\ LemDefaults /\ LemFaults
 
 \* the arithmetic of the lexical layer, against literal values
@@ -225,5 +242,9 @@ ASSUME /\ NumStr("128M") = "134217728" /\ NumStr("1023G") = "1098437885952" /\ N
        /\ TokKind("\"\"") = "str" /\ TokKind("true") = "bool" /\ TokKind("128" \o NA) = "bad" /\ TokKind("K") = "bad"
        /\ IsNatUpTo("65535", MaxU16) /\ ~IsNatUpTo("65536", MaxU16) /\ ~IsNatUpTo("-1", MaxU16) /\ IsNatUpTo("64K", MaxU64)
        /\ Words("  a \t b  \"c  d\" ") = <<"a", "b", "\"c", "d\"">> /\ StrBody(Trim("  \" x  y\t \"  ")) = " x  y\t "
+       /\ Lower("BlOck-9") = "block-9" /\ Upper("\"round-robin\"") = "\"ROUND-ROBIN\"" /\ UTrim("``\"a`\"`") = "\"a`\""
+       /\ TokKind("17179869184G") = "toobig" /\ TokKind("36028797018963969K") = "toobig" /\ TokKind("8796093022207M") = "size"
+       /\ NumStr("8796093022207M") = "9223372036853727232" /\ NumStr("9007199254740991K") = "9223372036854774784"
+       /\ TokKind("TRUE") = "bool" /\ TokKind("128" \o WSX) = "bad" /\ IsNatUpTo("63K", MaxU16) /\ NatStr("63K") = "64512"
        /\ Split("a,b,,c", ",") = <<"a", "b", "", "c">> /\ Trim(" \t x y \t") = "x y" /\ Subst("\"@\"", "F1") = "\"F1\""
 =============================================================================
